@@ -7,7 +7,8 @@ def tiers(quick, thorough):
 
 
 # ---------------------------------------------------------------------------------------------
-# C14 oracle test: false-positive rate of the real filter on uniformly mixed hashes
+# C14 oracle test: false-positive rate of the real filter on uniformly mixed hashes and on structured
+# families (hashes differing only in high bits / only in low bits / small integers)
 # ---------------------------------------------------------------------------------------------
 def bloom_fp_oracle(tier, seed, tracegen, sh):
     probes = 100000 if tier == "quick" else 400000
@@ -27,6 +28,21 @@ def bloom_fp_oracle(tier, seed, tracegen, sh):
             failures.append(f"MONITOR-FAIL property=C14 {fn} false negatives after adding {n} uniformly mixed hashes to a filter sized for (n={n}, p={p}) [tracegen {' '.join(gen)}]")
         if rate > bound:
             failures.append(f"MONITOR-FAIL property=C14 false-positive rate {rate:.4f} > 3p+4sigma = {bound:.4f} after adding n={n} uniformly mixed hashes to a filter sized for (n={n}, p={p}); {fp}/{pr} fresh hashes reported present [tracegen {' '.join(gen)}]")
+    fam_desc = {"high16": "hashes that differ only in their 16 highest bits (j << 48 | c)",
+                "low16": "hashes that differ only in their 16 lowest bits (c | j)",
+                "ints": "the integers 0 .. 2^17 themselves (what TransparentKeyBuilder feeds the doorkeeper)"}
+    for line in out.splitlines():
+        m = re.match(r"fpfam family=(\S+) n=(\d+) p=([\d.]+) probes=(\d+) false_pos=(\d+) false_neg=(\d+) c_lo=(\d+) c_hi=(\d+)", line)
+        if not m:
+            continue
+        fam, n, p, pr, fp, fn = m[1], int(m[2]), float(m[3]), int(m[4]), int(m[5]), int(m[6])
+        bound = 3 * p + 4 * math.sqrt(p * (1 - p) / pr)
+        rate = fp / pr
+        rows.append({"family": fam, "n": n, "p": p, "probes": pr, "false_pos": fp, "false_neg": fn, "rate": rate, "bound": round(bound, 5)})
+        if fn:
+            failures.append(f"MONITOR-FAIL property=C14 {fn} false negatives after adding {n} members of the family {fam_desc.get(fam, fam)} to a filter sized for (n={n}, p={p}) [tracegen {' '.join(gen)}]")
+        if rate > bound:
+            failures.append(f"MONITOR-FAIL property=C14 false-positive rate {rate:.4f} > 3p+4sigma = {bound:.4f} on {fam_desc.get(fam, fam)} (c_lo={m[7]}, c_hi={m[8]}): {n} members added to a filter sized for (n={n}, p={p}), {fp} of the {pr} other members reported present [tracegen {' '.join(gen)}]")
     if rc != 0 or not rows:
         failures.append("bloomfp generator failed: " + out[-200:])
     return {"report": {"kind": "implementation-vs-oracle test (not a proof)", "rows": rows}, "failures": failures, "gen": gen}
@@ -257,13 +273,15 @@ PROPS = {
     },
     "C01": {
         "module": "StrettoModel.Props.C01",
-        "jobs": [policy_job(r"^pol\.(add|add\.state|remove|update|clear|maxcost|cost|cap)$")],
+        "jobs": [policy_job(r"^pol\.(add|add\.state|remove|update|clear|maxcost|cost|cap)$"),
+                 acache_job(r"\.(policy)$", quick_lives=8), cache_job(r"\.(policy)$", quick_lives=14)],
         "oracles": [{"name": "live-invariants", "run": live_oracle("C01", ["invariants", "async_invariants"])}],
         "branches": POLICY_BRANCHES,
         "assumptions": [
             "i64 costs are modelled by unbounded Int under Dom: costs >= 0 and no i64 overflow of cost + item_size or of the running sum",
             "every LFUPolicy method holds the policy mutex for its whole body, so thread schedules reduce to sequences of method calls; update_max_cost's atomic store racing an add in progress is modelled as before-or-after",
             "HashMap iteration order and sketch estimates enter the model as oracle inputs observed from the implementation (guards checked by the driver)",
+            "cache-level monitor: after every admission of a new key the charges the applied items asked for (C16's formula, per key) fit in max_cost; stepped Cache and AsyncCache traces",
         ],
     },
     "C07": {
